@@ -108,6 +108,11 @@ def mixedOpts : List (Nat × List UInt8) :=
   [(252, seqBytes 8 0x10), (292, []), (292, seqBytes 20 0x40), (2049, [0x61, 0x62]), (2049, []), (65000, seqBytes 300 0),
    (65001, seqBytes 14 0x70)]
 
+/-- `Options.Add` (`AddOptionBytes`): the option goes behind the last one whose number is not greater. -/
+def insertOpt (o : Nat × List UInt8) : List (Nat × List UInt8) → List (Nat × List UInt8)
+  | [] => [o]
+  | p :: r => if p.1 ≤ o.1 then p :: insertOpt o r else o :: p :: r
+
 /-- What the harness handler writes for each behaviour (`none`: the writer is left unmodified). -/
 def handlerWr (beh : Beh) (n : Nat) : Option Wr :=
   match beh with
@@ -120,6 +125,7 @@ def handlerWr (beh : Beh) (n : Nat) : Option Wr :=
   | .ox => some { code := 69, opts := (12, []) :: electiveOpts, pay := digits n }
   | .oc => some { code := 69, opts := (12, []) :: criticalOpts, pay := digits n }
   | .oxc => some { code := 69, opts := (12, []) :: mixedOpts, pay := digits n }
+  | .ov id len => some { code := 69, opts := insertOpt (id, seqBytes len 0x21) [(12, [])], pay := digits n }
   | .none => none
   | .sep => none
 
